@@ -219,6 +219,34 @@ func (e *Exec) binopTerm(op token.Token, a, b *smt.Term, xt, yt types.Type) Valu
 			return smt.Or(a, b)
 		}
 	case smt.KFP:
+		if a.IsConst() && b.IsConst() {
+			x, y := math.Float64frombits(a.Val), math.Float64frombits(b.Val)
+			switch op {
+			case token.ADD:
+				return smt.FPC(math.Float64bits(x + y))
+			case token.SUB:
+				return smt.FPC(math.Float64bits(x - y))
+			case token.MUL:
+				return smt.FPC(math.Float64bits(x * y))
+			case token.QUO:
+				return smt.FPC(math.Float64bits(x / y))
+			case token.LSS:
+				return smt.BoolC(x < y)
+			case token.LEQ:
+				return smt.BoolC(x <= y)
+			case token.GTR:
+				return smt.BoolC(x > y)
+			case token.GEQ:
+				return smt.BoolC(x >= y)
+			case token.EQL:
+				return smt.BoolC(x == y)
+			case token.NEQ:
+				return smt.BoolC(x != y)
+			}
+		}
+		if op == token.QUO && e.Cfg.RelaxFDiv && b.IsConst() {
+			return e.relaxedDiv(a, b)
+		}
 		switch op {
 		case token.ADD:
 			return smt.Fp(smt.OFpAdd, smt.FP64, a, b)
@@ -890,4 +918,27 @@ func (e *Exec) next(fr *Frame, x *ssa.Next) Value {
 	r := Tuple{smt.True, it.M.Keys[it.Pos], it.M.Vals[it.Pos]}
 	it.Pos++
 	return r
+}
+
+// relaxedDiv returns a fresh q constrained by a sound superset of "q is the correctly rounded
+// quotient a/c" (c a positive finite constant, a finite): |fma(q,c,-a)| <= RTP(|q|*c*2^-53),
+// i.e. the residual of the rounded quotient is at most half an ulp of the exact quotient times c.
+func (e *Exec) relaxedDiv(a, c *smt.Term) *smt.Term {
+	e.fresh++
+	q := smt.Var(fmt.Sprintf("fdiv_q_%d", e.fresh), smt.FP64)
+	res := smt.Fp(smt.OFpFma, smt.FP64, q, c, smt.Fp(smt.OFpNeg, smt.FP64, a))
+	bound := smt.Fp(smt.OFpMulRTP, smt.FP64, smt.Fp(smt.OFpMulRTP, smt.FP64, smt.Fp(smt.OFpAbs, smt.FP64, q), c), smt.FPC(math.Float64bits(math.Ldexp(1, -53))))
+	e.pc = append(e.pc,
+		smt.Not(smt.Fp(smt.OFpIsNaN, smt.Bool, q)),
+		smt.Not(smt.Fp(smt.OFpIsInf, smt.Bool, q)),
+		smt.Not(smt.Fp(smt.OFpIsInf, smt.Bool, bound)),
+		smt.Not(smt.Fp(smt.OFpIsInf, smt.Bool, res)),
+		smt.Not(smt.Fp(smt.OFpIsNaN, smt.Bool, res)),
+		smt.Fp(smt.OFpLe, smt.Bool, smt.Fp(smt.OFpAbs, smt.FP64, res), bound))
+	if cv := math.Float64frombits(c.Val); cv >= 1 {
+		// |a/c| <= |a| and rounding is monotone
+		e.pc = append(e.pc, smt.Fp(smt.OFpLe, smt.Bool, smt.Fp(smt.OFpAbs, smt.FP64, q), smt.Fp(smt.OFpAbs, smt.FP64, a)))
+	}
+	e.notes = append(e.notes, "relaxed-fdiv")
+	return q
 }
